@@ -6,6 +6,9 @@ def I(name, variant, *args, **kw):
 # one instance per underlying kind for the big grids: a crash / sanitizer report ends only that instance
 KINDS = ['array', 'list', 'tuple', 'htuple', 'table', 'tree', 'range']
 
+# container kinds that can change length under a view (phase=midop part=shrunk)
+SHRINKING = ['array', 'list', 'htuple', 'table', 'tree']
+
 def per_kind(prefix, variant, *args):
     return [I('%s-%s' % (prefix, k), variant, *(list(args) + ['kinds=' + k])) for k in KINDS]
 
@@ -32,8 +35,20 @@ CHECK = {
            'absent key or element, wrong-typed key or value, pop_at / push_at out of range, impossible resize, missing method, mutating a stack Tuple), the exception must be in the '
            'accept set of that failure kind, and the rest of the walk, the held item and len must be exactly those of the undisturbed walk; a successful get in mid-iteration must not '
            'disturb containers and is only recorded for Range / Slice / Zip / Map, whose get shares the cursor with iteration.  '
+           'phase=midop part=shrunk: the view is built first and the underlying container changes length afterwards (pop, pop twice, remove the front / the middle item or key, resize(n-1), push, push twice), '
+           'so that an index inside the Slice\'s own (stale) window is refused by the container and not by the Slice: Slice, Slice of Slice, Zip of a Slice with a list on either side, Zip of two Slices, Map and Filter over a Slice '
+           '(stack macros and new()) over Array / List / heap Tuple / Table / Tree are walked in both directions with one get(target, i) at one position - every position, every target (the view and each Slice inside it), '
+           'every i in [-len-k .. len+k], refused and accepted - and once with all those calls at every position; the oracle is differential only: the walk yields exactly the objects and values of the undisturbed walk of the same '
+           'view over the same container, the held item reads the same before and after, and the call raises / returns what it does with no iteration in progress (on Zip and Map only refused calls are made: a successful get moves '
+           'their iteration on the current tree).  Walks in which the stale window makes the Slice step through the end of the container are not defined by anything and are left out: they are found beforehand on a probe '
+           'iterable of the harness that records being handed Terminal or a foreign pointer.  '
            'phase=gcitems: heap and stack Zips over a Map that produces a fresh collector-managed object per element (and a Range / a second Map), 3 / 50 / 300 elements, both '
-           'directions; between each cursor step and the use of the pair the dead stack is scrubbed and garbage allocated, then every component must be a live Int with the produced value.'),
+           'directions; between each cursor step and the use of the pair the dead stack is scrubbed and garbage allocated, then every component must be a live Int with the produced value.  '
+           'phase=gcitems part=sole: pipelines of heap views (new(Filter), new(Map), new(Zip) incl. the heap form of enumerate, new(Slice) incl. the heap form of reverse, new(Range) with heap Int bounds; depth 1 to 3) are built '
+           'in a helper that returns only the outermost view, so that the source containers (Array / List holding Probe elements, heap Tuple of collector-managed Probes, Table / Tree with Probe keys), the inner views, the '
+           'new(Function) objects and the Ranges are held by the view and by nothing else; the dead stack is scrubbed and a collection is made to happen (garbage allocated until a sentinel object has been finalised, or GC_Mark + '
+           'GC_Sweep called); then no source element alive when the helper returned may have been finalised (constructor / destructor ledger) and the view walked forwards and backwards (allocating meanwhile) must yield exactly '
+           'the items the pipeline selects from the source values, every Probe handed out intact (Table / Tree sources: order-free pipelines, compared as multisets).'),
   'bounds': {
     'quick': ('leaves: Array/List/stack Tuple/heap Tuple/Table/Tree x length 0..6, Tuples holding one object twice (all position pairs, length 2..5); '
               'Range: all four arities over {_, -7..7}^3 (4,096); Slice: arities slice(I) / (I,stop) / (I,start,stop) / (I,start,stop,step) + reverse(I) over '
@@ -45,10 +60,17 @@ CHECK = {
               '(420 histories, every state checked; ASan n <= 24); assign/copy: 43 parameter sets x {assign from heap, assign from stack, copy of heap, copy of stack original} x 4 scenarios (walks+len+get, nested, sequential, del-source) (430 cases, also under ASan); '
               'refused call in mid-iteration: 13 kinds (containers length 0..4, 12 Ranges and 9 Slices each as macro and new(), 16 Zips, 6 Filters, 5 Maps) x 2 directions x every position x every '
               'applicable refused call (3,648 cases, also under ASan); '
+              'views over a container that changed length afterwards: 5 container kinds x length 4 x 8 changes of length (7 for Table / Tree) x 7 view shapes (8 Slice parameter sets; Slice of Slice x 5 outer parameter sets; Filter x 3 masks) '
+              'x {macro, new()} = 7,904 views, both directions, every position x every target x every index in [-len-1 .. len+1] one call per walk + one walk with all calls (431,016 disturbed walks; '
+              'ASan: 2 Slice parameter sets, 1,976 views, 121,066 walks); '
+              'views as sole holders of their sources: 19 pipelines (8 of depth 1, 10 of depth 2, 1 of depth 3) x Array / List / heap Tuple (all) and Table / Tree (the 7 order-free ones) x 3 / 40 elements x '
+              '{threshold-triggered, forced} collection (268 cases, also under ASan), each walked in both directions; '
               'ASan+UBSan (clang): the same grids one size step smaller (length <= 4, Slice/Range args in [-5..5], compositions length <= 3, depth 3 length <= 2)'),
     'thorough': ('as quick with length 0..8 (leaves, Slice, Map, enumerate), Slice args {_, -10..10}^3 (11,156 x 63 = 702,828), Range {_, -9..9}^3 (8,000), Zip children length 0..4 (44,136), '
                  'Filter n <= 8 (3,577); compositions depth 2 with every slice {_, -3..3}^3 as inner and as outer view (523 x 523 views) x 7 kinds x length 0..6; '
                  'depth 3 with 80 slices + filters/maps/zips/enumerate (90^3 views) x 7 kinds x length 0..4; new() views at length <= 4; '
+                 'views over a container that changed length afterwards: length 2..7 (ASan 2..6), 16 Slice parameter sets, indices [-len-2 .. len+2], one instance per container kind '
+                 '(92,768 views and 8,118,390 disturbed walks; ASan 76,960 views and 5,446,456 walks); views as sole holders of their sources also with 300 elements (402 cases; ASan as quick); '
                  'ASan+UBSan at the quick bounds (length 0..6, Slice {_, -8..8}^3), compositions depth 2 full grid at length <= 3, depth 3 small family at length <= 4'),
   },
   'assumptions': [
@@ -66,6 +88,9 @@ CHECK = {
     '(a Range shared by two views is one cursor by design); a Zip of unequal lengths is not walked backwards there (recorded finding D17)',
     'midop: the calls that used to be switched off (get(-len-1) on Range/Slice, a refused get on a Zip whose earlier input is longer, a successful get(slice, k) during an iteration over the same Slice) are judged since the fixes c296c27, 76e756b, bc5c7a5 (flags rangeneg=1 zipget=1 sliceget=1); a successful get during the '
     'iteration of a Range, Zip or Map moves the shared cursor on the current tree (existing behaviour, recorded in successful_get_moves_iteration, not judged)',
+    'midop part=shrunk: what a Slice (which caches the length of its underlying iterable at construction) yields after the container changed length is not defined by the documentation; nothing about it is judged except that '
+    'get() calls - refused or accepted - in the middle of a walk leave the walk exactly as it is without them; a walk in which the view hands Terminal back to the container\'s iter_next / iter_prev is left out',
+    'gcitems part=sole: a collection is confirmed by the finalisation of a sentinel object allocated just before (not confirmed = noted, never judged); the views are not deleted explicitly, the collector reclaims them later',
     'gcc/clang, glibc and the sanitizer run-times are trusted; element values beyond the small Int universe are represented by it (iteration never looks at values)',
   ],
   'instances': {
@@ -84,7 +109,8 @@ CHECK = {
       + [I('heap-asan', 'asan', 'phase=heap', 'maxn=2', 'amax=2', 'rmax=2', 'zmax=2', 'fmax=2')]
       + [I('history', 'base', 'phase=history'), I('history-asan', 'asan', 'phase=history', 'hmax=24')]
       + [I('assign', 'base', 'phase=assign'), I('assign-asan', 'asan', 'phase=assign')]
-      + [I('midop', 'base', 'phase=midop', 'rangeneg=1', 'zipget=1', 'sliceget=1'), I('midop-asan', 'asan', 'phase=midop', 'rangeneg=1', 'zipget=1', 'sliceget=1')]
+      + [I('midop', 'base', 'phase=midop', 'part=classic', 'rangeneg=1', 'zipget=1', 'sliceget=1'), I('midop-asan', 'asan', 'phase=midop', 'part=classic', 'rangeneg=1', 'zipget=1', 'sliceget=1')]
+      + [I('midop-shrunk', 'base', 'phase=midop', 'part=shrunk'), I('midop-shrunk-asan', 'asan', 'phase=midop', 'part=shrunk', 'sparams=2')]
       + [I('gcitems', 'base', 'phase=gcitems'), I('gcitems-asan', 'asan', 'phase=gcitems', 'gmax=50')]
     ),
     'thorough': (
@@ -102,8 +128,10 @@ CHECK = {
       + [I('heap-asan', 'asan', 'phase=heap', 'maxn=3', 'amax=3', 'rmax=3', 'zmax=2', 'fmax=3')]
       + [I('history', 'base', 'phase=history'), I('history-asan', 'asan', 'phase=history')]
       + [I('assign', 'base', 'phase=assign'), I('assign-asan', 'asan', 'phase=assign')]
-      + [I('midop', 'base', 'phase=midop', 'rangeneg=1', 'zipget=1', 'sliceget=1'), I('midop-asan', 'asan', 'phase=midop', 'rangeneg=1', 'zipget=1', 'sliceget=1')]
-      + [I('gcitems', 'base', 'phase=gcitems'), I('gcitems-asan', 'asan', 'phase=gcitems', 'gmax=50')]
+      + [I('midop', 'base', 'phase=midop', 'part=classic', 'rangeneg=1', 'zipget=1', 'sliceget=1'), I('midop-asan', 'asan', 'phase=midop', 'part=classic', 'rangeneg=1', 'zipget=1', 'sliceget=1')]
+      + [I('midop-shrunk-%s' % k, 'base', 'phase=midop', 'part=shrunk', 'kinds=' + k, 'smin=2', 'smax=7', 'sparams=16', 'sidx=2') for k in SHRINKING]
+      + [I('midop-shrunk-asan-%s' % k, 'asan', 'phase=midop', 'part=shrunk', 'kinds=' + k, 'smin=2', 'smax=6', 'sparams=16', 'sidx=2') for k in SHRINKING]
+      + [I('gcitems', 'base', 'phase=gcitems', 'solemax=300'), I('gcitems-asan', 'asan', 'phase=gcitems', 'gmax=50')]
     ),
   },
 }
